@@ -6,7 +6,7 @@ from props import common, serdes
 def run(ctx):
     q = ctx.quick()
     cases, n = serdes.model(ctx, "rt", 1)
-    out, tres, events = serdes.run_harness(ctx, cases, 60 if q else 4000, 1, "serde-rt")
+    out, tres, events = serdes.run_harness(ctx, cases, 60 if q else 40000, 1, "serde-rt")
     serdes.report(ctx, out, tres, events, {"roundtrip"}, {"ser"})
     ser = [e for e in events if e["ev"] == "ser"]
     ctx.cov["evaluations"] = out["rt"] + out["random"]
